@@ -227,14 +227,15 @@ class BaseCurve(Intface_BaseCurve):
         othercopy.degree = maxdegree
         npts0 = selfcopy.npts
         npts1 = othercopy.npts
-        newknotvector = [0] * (maxdegree + npts0 + npts1 + 1)
-        newknotvector[:npts0] = selfcopy.knotvector[:npts0]
-        newknotvector[npts0:] = othercopy.knotvector[1:]
+        newknotvector = list(selfcopy.knotvector[:npts0])
+        newknotvector += list(othercopy.knotvector)
         newknotvector = KnotVector(newknotvector)
-        newctrlpoints = [0] * (npts0 + npts1 - 1)
-        newctrlpoints[:npts0] = selfcopy.ctrlpoints[:npts0]
-        newctrlpoints[npts0:] = othercopy.ctrlpoints[1:]
+        newctrlpoints = list(selfcopy.ctrlpoints) + list(othercopy.ctrlpoints)
         newcurve = self.__class__(newknotvector, newctrlpoints)
+        if selfcopy.weights is not None or othercopy.weights is not None:
+            weights0 = selfcopy.weights or [1] * npts0
+            weights1 = othercopy.weights or [1] * npts1
+            newcurve.weights = list(weights0) + list(weights1)
         newcurve.knot_clean([umaxleft])
         return newcurve
 
